@@ -387,6 +387,19 @@ pub fn apply(m: &mut Module, e: &Json) -> Json {
                 let (f, _) = m.add_import_func("env", e["field"].as_str().unwrap(), ty);
                 (true, f.index() as i64)
             }
+            "add_import_table" => {
+                let ety = if e["ety"] == "externref" { RefType::Externref } else { RefType::Funcref };
+                let (t, _) = m.add_import_table("env", e["field"].as_str().unwrap(), false, 1, None, ety);
+                (true, t.index() as i64)
+            }
+            "add_import_memory" => {
+                let (t, _) = m.add_import_memory("env", e["field"].as_str().unwrap(), false, false, 1, None, None);
+                (true, t.index() as i64)
+            }
+            "add_import_global" => {
+                let (t, _) = m.add_import_global("env", e["field"].as_str().unwrap(), ValType::I32, false, false);
+                (true, t.index() as i64)
+            }
             "replace_imported" | "replace_exported" => {
                 let fidx = e["id"].as_u64().unwrap() as usize;
                 let Some(f) = find_id(m.funcs.iter().map(|f| f.id()), fidx) else { return (false, -1) };
